@@ -191,6 +191,32 @@ def job_cell(job):
     return res
 
 
+def _cell_panics(job, exc, extra):
+    """encode() reached a panic on every path for some length of this cell: find the length natively"""
+    v, l, m, lengths, seed, nval = job[:6]
+    native = OV.Native(extra['native'])
+    rnd = random.Random(seed + 5)
+    res = {'failures': [], 'obligations': 1, 'evaluations': 1, 'discharged': 0, 'validation': {'cases': 0, 'disagreements': 0}}
+    for n in lengths:
+        data = random_payload(rnd, m, n)
+        req = 'encode %s %d %d %d' % (OV.hexs(data), l, m, v)
+        ans = native.ask(req)
+        res['validation']['cases'] += 1
+        if ans.startswith('PANIC') or ans == 'ABORT':
+            res['failures'].append({'key': 'C06/bitstream', 'confirmed': True,
+                                    'what': 'encode panics for every %s payload of length %d at V%02d-%s: %s (executor: %s)' % (
+                                        iso.MODES[m], n, v + 1, iso.LEVELS[l], ans[:80], str(exc)[:80]),
+                                    'replay': {'request': req}})
+            break
+    native.close()
+    if not res['failures']:
+        return None
+    return res
+
+
+job_cell.on_concrete_panic = _cell_panics
+
+
 def job_push_bits(job):
     """one inductive step of CompactQR::push_bits: arbitrary valid buffer (bits >= len are zero), arbitrary value"""
     blen, width, nbytes = job
